@@ -1,12 +1,56 @@
 """C04 Conditionals, loops, comprehensions and early exits have structured semantics."""
+import itertools
+
 from harness import progcheck
 from harness.props import common
+
+PRE = "def L = [3, 1, 2]; def S = <<'b', 'a', 'c'>>; def M = <<<'k2' => 1, 'k1' => 2, 'k0' => 5>>>; def T = 'xy'; def O = <*p = 1, q = 4*>; def E = []; "
+# (generator source text, loop-header text): the default selector is only used where the loop and the comprehension agree on it
+SOURCES = [("L", "L"), ("S", "S"), ("T", "T"), ("E", "E"), ("keys M", "keys M"), ("values M", "values M"), ("entries M", "entries M"),
+           ("keys O", "keys O"), ("values O", "values O"), ("entries O", "entries O"), ("range(3)", "range(3)"), ("<<2, 1>>", "<<2, 1>>")]
+CONDS = [None, "string(a) != '1'", "string(a) < string(b)"]
+
+
+def comprehension_cases(rng, n):
+    """a list / set / map comprehension (simple, product `for .. for`, parallel `for .. also for`, optional condition) against the equivalent explicit loop"""
+    cases = []
+    # simple forms: every source x every collection kind x condition
+    for (g1, h1), cond, kind in itertools.product(SOURCES, CONDS[:2], ("list", "set", "map")):
+        c = f" if {cond}" if cond else ""
+        guard = (lambda body: f"if {cond} then {body}") if cond else (lambda body: body)
+        if kind == "list":
+            comp, loop = f"[[a, 0] for a in {g1}{c}]", f"def r = []; for a in {h1} do {guard('append(r, [a, 0])')} end; r"
+        elif kind == "set":
+            comp, loop = f"<<string(a) for a in {g1}{c} >>", f"def r = <<>>; for a in {h1} do {guard('append(r, string(a))')} end; r"
+        else:
+            comp, loop = f"<<<string(a) => a for a in {g1}{c} >>>", f"def r = <<<>>>; for a in {h1} do {guard('r[string(a)] = a')} end; r"
+        cases.append((PRE + comp, ('same', PRE + loop)))
+    # product and parallel forms: every ordered pair of sources
+    combos = list(itertools.product(SOURCES, SOURCES, CONDS, ("list", "set"), ("for", "also for")))
+    for (g1, h1), (g2, h2), cond, kind, mode in (combos if n is None else rng.sample(combos, min(n, len(combos)))):
+        c = f" if {cond}" if cond else ""
+        guard = (lambda body: f"if {cond} then {body}") if cond else (lambda body: body)
+        elem = "[a, b]"
+        open_, close, init = ("[", "]", "[]") if kind == "list" else ("<<", " >>", "<<>>")
+        comp = f"{open_}{elem} for a in {g1} {mode} b in {g2}{c}{close}"
+        if mode == "for":
+            loop = f"def r = {init}; for a in {h1} do for b in {h2} do {guard(f'append(r, {elem})')} end end; r"
+        else:
+            loop = (f"def A_ = []; for a in {h1} do append(A_, a) end; def B_ = []; for b in {h2} do append(B_, b) end; def r = {init}; "
+                    f"def n_ = length(A_); if length(B_) > n_ then n_ = length(B_); "
+                    f"for i_ in range(n_) do def a = NULL; def b = NULL; if i_ < length(A_) then a = A_[i_]; if i_ < length(B_) then b = B_[i_]; "
+                    f"{guard(f'append(r, {elem})')} end; r")
+        cases.append((PRE + comp, ('same', PRE + loop)))
+    return cases
 
 
 def run(ctx):
     ctx.rule = ("generated loop nests (depth <= 3) over lists, sets, maps (keys/values/entries) and strings with break/continue/return at every statement position, while loops, if/elif/else chains and every comprehension form; in-program trace; non-trivial = a loop with an exit statement or a comprehension over a set/map; each program is run on the implementation, on a reference interpreter written from the language rules "
-                "(value + printed trace must match) and on the Lean model evaluator")
+                "(value + printed trace must match) and on the Lean model evaluator; plus every simple / product / parallel list, set and map comprehension "
+                "over every ordered pair of source forms (list, set, string, empty, keys/values/entries of a map and of an object) with and without a "
+                "condition, against the equivalent explicit loop")
     progcheck.run_profiles(ctx, ["control", "mixed"], 3000 if ctx.thorough else 500)
+    progcheck.run_templates(ctx, comprehension_cases(ctx.rng, None if ctx.thorough else 500), "comprehension-vs-loop")
     common.replay_known(ctx)
 
 
